@@ -9,6 +9,7 @@ import json, os, random, re, shutil, time
 import vlib
 
 W = int(os.environ.get("VERIF_WORKERS", "0") or 0) or min(vlib.NCPU, 8)
+SFX = os.environ.get("VERIF_DRV_SUFFIX", "")   # lets a scratch-worktree run build its own driver binaries
 
 
 # ----------------------------------------------------------------------------------------------
@@ -150,7 +151,7 @@ def run_c24(run):
            "crash state (every subset of unsynced entries) of every reachable state" % mm,
            extra_files={"MarkerRun.cfg": cfg.encode()},
            must_cover=["DoMove", "Create", "RemoveOld", "DoRemoveOldFail", "SyncDir", "RetMove", "DoRORemove", "DoCrash"])
-    binp = vlib.build_driver("vfs/atomicfs", name="proto_atomicfs")
+    binp = vlib.build_driver("vfs/atomicfs", name="proto_atomicfs" + SFX)
     out = vlib.scratch("verif.mk.")
     env = dict(VERIF_OUT=out, VERIF_SEED=str(run.seed))
     env.update(dict(VERIF_MOVES="3", VERIF_LEN="4", VERIF_CRASHES="2") if quick else
@@ -355,7 +356,7 @@ def run_c41(run):
     if not quick:
         vlib.sany(SO, "SharedObjTrace")
     bugs(run, "SharedObj", "SharedObj", [("Bug_CheckBeforeCreateRef.cfg", ["Safe"]), ("Bug_DeleteWithoutList.cfg", ["Safe", "DeleteOnlyUnreferenced"])])
-    binp = vlib.build_driver("objstorage/objstorageprovider", name="proto_objprovider")
+    binp = vlib.build_driver("objstorage/objstorageprovider", name="proto_objprovider" + SFX)
     total_forced = total_paths = 0
     any_drift = False
     violated = False
@@ -512,7 +513,7 @@ def run_c30(run):
     if not quick:
         design(run, "Skiplist", "Skiplist", "SkiplistReader.cfg", "Skiplist(K=3 + one reader walking level 0 forward then backward) exhaustive")
         design(run, "Skiplist", "Skiplist", "Skiplist4.cfg", "Skiplist(K=4, heights 2,1,2,1, keys 2,1,3,2) exhaustive", timeout=1700, heap="10g")
-    binp = vlib.build_driver("internal/arenaskl", name="proto_arenaskl")
+    binp = vlib.build_driver("internal/arenaskl", name="proto_arenaskl" + SFX)
     out = vlib.scratch("verif.sk.")
     env = dict(VERIF_OUT=out, VERIF_SEED=str(run.seed), VERIF_ROUNDS=str(36 if quick else 900), VERIF_THREADS="6", VERIF_KEYS="120",
                VERIF_READERS="2", VERIF_PROBE_LEN=str(4 if quick else 6))
@@ -627,7 +628,7 @@ def c30_forced(run, dots):
         raise vlib.Inconclusive("hooks missing: internal/arenaskl/skl.go has no verifhook.Point calls (apply /verif/hooks/proto.patch)")
     quick = run.tier == "quick"
     rng = random.Random(run.seed)
-    hbin = vlib.build_driver("internal/arenaskl", name="proto_arenaskl_hooks", tags="verif,verifhooks")
+    hbin = vlib.build_driver("internal/arenaskl", name="proto_arenaskl_hooks" + SFX, tags="verif,verifhooks")
     res = {}
     for cfgname, heights, keys, label in (("Skiplist.cfg", "2,1,2", "1,2,3", "distinct"), ("SkiplistDup.cfg", "2,1,2", "1,2,1", "dup")):
         if quick and label == "dup":
@@ -722,7 +723,7 @@ def run_c34(run):
     with open(sf, "w") as o:
         for p in paths:
             o.write(json.dumps([parse_label(x) for x in p]) + "\n")
-    binp = vlib.build_driver("internal/cache", name="proto_cache")
+    binp = vlib.build_driver("internal/cache", name="proto_cache" + SFX)
     out = vlib.scratch("verif.ca.")
     env = dict(VERIF_OUT=out, VERIF_SEED=str(run.seed), VERIF_SEQS=str(60 if quick else 1500), VERIF_STEPS="120", VERIF_SCHEDULES=sf, VERIF_READERS="3")
     spath, rpath = os.path.join(out, "cache_seq.ndjson"), os.path.join(out, "cache_rs.ndjson")
